@@ -217,7 +217,8 @@ def _fault_list(tier, good_len, seed):
     import random
 
     r = random.Random(seed)
-    faults = [{"fault": "absent-dir"}, {"fault": "empty"}, {"fault": "none"}, {"fault": "dir-instead-of-file"}]
+    faults = [{"fault": "absent-dir"}, {"fault": "empty"}, {"fault": "none"}, {"fault": "dir-instead-of-file"},
+              {"fault": "other-flags", "mode": 0}, {"fault": "other-flags", "mode": 1}]
     if tier == "quick":
         lens = sorted(set(list(range(0, 65)) + [2 ** k for k in range(6, 40) if 2 ** k < good_len] + [good_len // 2, good_len // 3, good_len - 1, good_len - 2, good_len - 64]
                           + [r.randrange(good_len) for _ in range(40)]))
